@@ -105,6 +105,7 @@ def build(fam, archset="x86", extra_flags=(), main="main.cpp", with_scalar=True,
     """Build harness binary for one family. archset: 'x86' (20 native architectures [+ scalar]) or 'emu'
     (emulated<128/256>, own binary because XSIMD_WITH_EMULATED changes generic kernels of the others)."""
     flags = BASE_FLAGS + list(extra_flags)
+    compiler = os.environ.get("VERIF_CXX", compiler)          # compiler flavour (e.g. clang++-14): the harness is header-only code + wrappers
     archs = list(X86_ARCHS) if archset == "x86" else list(EMU_ARCHS) if archset == "emu" else []
     if archset == "emu":
         flags = flags + ["-DXSIMD_WITH_EMULATED=1"]
